@@ -89,8 +89,8 @@ def jKind : GenKind → Json
   | .td n s => Json.arr #[Json.str "td", Json.str n, toJson s]
   | .stream sid => Json.arr #[Json.str "st", toJson sid]
 
-def jCaches (c : List (OV × Int × Nat × Nat)) : Json :=
-  Json.arr (c.map fun (l, t, n1, n2) => Json.arr #[jOV l, toJson t, toJson n1, toJson n2]).toArray
+def jCaches (c : List (OV × Option Int × Nat × Nat)) : Json :=
+  Json.arr (c.map fun (l, t, n1, n2) => Json.arr #[jOV l, jOptInt t, toJson n1, toJson n2]).toArray
 
 def jEv (e : OEv) : Json := Json.mkObj [
   ("tag", Json.str e.tag), ("res", jRes e.res), ("clock", jSnap e.clock), ("caches", jCaches e.caches),
@@ -123,10 +123,13 @@ def parseSnap (j : Json) : Except String Snap := do
            depth := ← a[3]!.getNat?,
            inContext := match a[4]! with | .null => none | x => x.getBool?.toOption }
 
-def parseCaches (j : Json) : Except String (List (OV × Int × Nat × Nat)) := do
+def parseCaches (j : Json) : Except String (List (OV × Option Int × Nat × Nat)) := do
   (← j.getArr?).toList.mapM fun c => do
     let a ← c.getArr?
-    return (← parseOV a[0]!, ← a[1]!.getInt?, ← a[2]!.getNat?, ← a[3]!.getNat?)
+    let t ← match a[1]! with
+      | .null => pure none
+      | x => do pure (some (← x.getInt?))
+    return (← parseOV a[0]!, t, ← a[2]!.getNat?, ← a[3]!.getNat?)
 
 def parseEv (j : Json) : Except String OEv := do
   let touched ← match getOpt j "touched" with
